@@ -35,9 +35,19 @@ type OpSpec struct {
 	Fam  string `json:"fam"`
 	Name string `json:"name"`
 	Seed uint64 `json:"seed"`
+	// Var != 0: the arguments synthesised from Seed are perturbed in one place
+	// (one bit of one byte string / integer). Two operations with the same Seed
+	// and different Var get near-identical, unequal arguments - what collides in
+	// value-keyed caches, memo tables and direct-mapped slots.
+	Var uint64 `json:"var,omitempty"`
 }
 
-func (s OpSpec) String() string { return fmt.Sprintf("%s/%s#%x", s.Fam, s.Name, s.Seed) }
+func (s OpSpec) String() string {
+	if s.Var != 0 {
+		return fmt.Sprintf("%s/%s#%x~%x", s.Fam, s.Name, s.Seed, s.Var)
+	}
+	return fmt.Sprintf("%s/%s#%x", s.Fam, s.Name, s.Seed)
+}
 
 // Inst is an instantiated operation.
 type Inst struct {
@@ -545,9 +555,12 @@ func (c *Catalogue) Build(spec OpSpec, env *Env, task int) *Inst {
 		if f == nil {
 			return c.missing(in)
 		}
-		args, ok := SynthArgs(r, f.Fn.Type(), f.Params, 0)
+		args, ok := SynthArgs(r, f.Fn.Type(), f.Params, 0, f.Name)
 		if !ok {
 			return c.missing(in)
+		}
+		if spec.Var != 0 {
+			perturbArgs(args, NewRng(spec.Var))
 		}
 		in.Args = ifaces(args)
 		fn := f.Fn
@@ -563,9 +576,12 @@ func (c *Catalogue) Build(spec OpSpec, env *Env, task int) *Inst {
 			return c.missing(in)
 		}
 		mt, _ := recv.Type().MethodByName(mr.Method)
-		args, ok := SynthArgs(r, mt.Type, mr.Params, 1)
+		args, ok := SynthArgs(r, mt.Type, mr.Params, 1, mr.Method)
 		if !ok {
 			return c.missing(in)
+		}
+		if spec.Var != 0 {
+			perturbArgs(append([]reflect.Value{recv}, args...), NewRng(spec.Var))
 		}
 		in.Args = append([]interface{}{recv.Interface()}, ifaces(args)...)
 		in.Do = func() []interface{} { return ifaces(m.Call(args)) }
@@ -730,6 +746,19 @@ func (c *Catalogue) buildSec(in *Inst, r *Rng) {
 	if n > 0 {
 		bits = uint32(8*n - r.Intn(8))
 	}
+	if in.Spec.Var != 0 {
+		vr := NewRng(in.Spec.Var)
+		switch vr.Intn(4) {
+		case 0, 1:
+			key[vr.Intn(16)] ^= byte(1 << uint(vr.Intn(8)))
+		case 2:
+			if len(payload) > 0 {
+				payload[vr.Intn(len(payload))] ^= byte(1 << uint(vr.Intn(8)))
+			}
+		default:
+			count ^= 1 << uint(vr.Intn(32))
+		}
+	}
 	in.Args = []interface{}{&key, &payload}
 	name := in.Spec.Name
 	switch {
@@ -810,6 +839,9 @@ func (c *Catalogue) buildSec(in *Inst, r *Rng) {
 
 func (c *Catalogue) buildAccessors(in *Inst, t *RegType, r *Rng) {
 	recv := c.newReceiver(t.T, r)
+	if in.Spec.Var != 0 {
+		perturbArgs([]reflect.Value{recv}, NewRng(in.Spec.Var))
+	}
 	pt := recv.Type()
 	type call struct {
 		m    reflect.Value
@@ -828,7 +860,7 @@ func (c *Catalogue) buildAccessors(in *Inst, t *RegType, r *Rng) {
 			getters = append(getters, call{m: recv.Method(m)})
 		case strings.HasPrefix(mm.Name, "Set"):
 			if r.Chance(60) {
-				args, ok := SynthArgs(r, mm.Type, params, 1)
+				args, ok := SynthArgs(r, mm.Type, params, 1, mm.Name)
 				if ok {
 					setters = append(setters, call{m: recv.Method(m), args: args})
 				}
@@ -1167,4 +1199,90 @@ func (c *Catalogue) SortedSkipped() []string {
 	}
 	sort.Strings(out)
 	return out
+}
+
+// perturbArgs changes one bit in one place of the argument list (see OpSpec.Var).
+func perturbArgs(args []reflect.Value, r *Rng) {
+	type leaf struct {
+		v    reflect.Value
+		kind int // 0 bytes, 1 uint, 2 int, 3 string
+	}
+	var leaves []leaf
+	var walk func(v reflect.Value, depth int)
+	walk = func(v reflect.Value, depth int) {
+		if depth > 6 || !v.IsValid() {
+			return
+		}
+		switch v.Kind() {
+		case reflect.Ptr, reflect.Interface:
+			if !v.IsNil() {
+				walk(v.Elem(), depth+1)
+			}
+		case reflect.Struct:
+			if v.Type() == timeType {
+				return
+			}
+			for i := 0; i < v.NumField(); i++ {
+				if v.Type().Field(i).PkgPath == "" {
+					walk(v.Field(i), depth+1)
+				}
+			}
+		case reflect.Slice, reflect.Array:
+			if v.Len() == 0 {
+				return
+			}
+			if v.Type().Elem().Kind() == reflect.Uint8 {
+				if v.Index(0).CanSet() {
+					leaves = append(leaves, leaf{v, 0})
+				}
+				return
+			}
+			for i := 0; i < v.Len() && i < 8; i++ {
+				walk(v.Index(i), depth+1)
+			}
+		case reflect.Uint, reflect.Uint8, reflect.Uint16, reflect.Uint32, reflect.Uint64:
+			if v.CanSet() {
+				leaves = append(leaves, leaf{v, 1})
+			}
+		case reflect.Int, reflect.Int8, reflect.Int16, reflect.Int32, reflect.Int64:
+			if v.CanSet() {
+				leaves = append(leaves, leaf{v, 2})
+			}
+		case reflect.String:
+			if v.CanSet() && v.Len() > 0 {
+				leaves = append(leaves, leaf{v, 3})
+			}
+		}
+	}
+	for _, a := range args {
+		walk(a, 0)
+	}
+	if len(leaves) == 0 {
+		return
+	}
+	l := leaves[r.Intn(len(leaves))]
+	switch l.kind {
+	case 0:
+		e := l.v.Index(r.Intn(l.v.Len()))
+		e.SetUint(e.Uint() ^ uint64(1<<uint(r.Intn(8))))
+	case 1:
+		bits := l.v.Type().Bits()
+		l.v.SetUint((l.v.Uint() ^ uint64(1)<<uint(r.Intn(bits))) & (^uint64(0) >> uint(64-bits)))
+	case 2:
+		l.v.SetInt(l.v.Int() ^ 1)
+	case 3:
+		b := []byte(l.v.String())
+		i := r.Intn(len(b))
+		switch {
+		case b[i] >= '0' && b[i] <= '8':
+			b[i]++
+		case b[i] == '9':
+			b[i] = '0'
+		case b[i] >= 'a' && b[i] <= 'e':
+			b[i]++
+		default:
+			b[i] ^= 1
+		}
+		l.v.SetString(string(b))
+	}
 }
